@@ -553,22 +553,28 @@ class PrepTrace:
             if not en:
                 break
             self.do(rnd.choice(en))
-        # deterministic sweep: everything but wake-ups first, so that every step of the sweep is progress (a wake-up is only taken
-        # when no message and no pool thread is left: it then finds its task finished). The protocol is finite: scenarios of the
-        # sizes used here need < 500 steps; a run that is still busy after SWEEP_LIMIT steps of progress is diagnosed as a livelock
-        # (e.g. a failure message bouncing between two actors) and judged like a run that has come to rest.
+        # deterministic round-robin sweeps: every enabled delivery / pool thread is taken once per sweep; wake-ups only when nothing
+        # else is left (they then find their task finished), so every step of a sweep is progress. The protocol is finite (the
+        # scenarios used here need < 500 steps). A livelock (e.g. a failure message bouncing between two actors for ever) is
+        # diagnosed when the projected state after a full sweep equals the state after an earlier one - the sweeps are deterministic
+        # and fair, so the run would go on like this for ever - or, as a backstop, after SWEEP_LIMIT steps of progress. A livelocked
+        # run is judged like one that has come to rest.
         guard = 0
+        seen = set()
         while True:
             en = self.enabled()
             if not en:
                 break
-            first = [d for d in en if d[0] != "wakeup"] or en
-            self.do(first[0])
-            guard += 1
-            if guard > self.SWEEP_LIMIT:
+            for dec in [d for d in en if d[0] != "wakeup"] or en:
+                if dec in self.enabled():
+                    self.do(dec)
+                    guard += 1
+            sig = json.dumps(self.events[-1]["st"], sort_keys=True)
+            if sig in seen or guard > self.SWEEP_LIMIT:
                 self.livelock = True
                 self._log(("Livelock", 0, 0))
                 return followed, skipped
+            seen.add(sig)
         if self.w.load_phase() and not self.w.success():
             ok = self.w.run_load_phase(rnd)
             if ok:
